@@ -20,6 +20,10 @@ def check(repo: Repo, rep, tier):
     equal_keeps(repo, rep)
     by_key(repo, rep)
     pair_len(repo, rep)
+    cursor_sync(repo, rep)
+    pair_recurse(repo, rep)
+    callee_by_value(repo, rep)
+    align_window(repo, rep)
     stale_bindings(repo, rep, {n for (rel, n), w in __import__("sa.rules.common", fromlist=["rebound_globals"]).rebound_globals(repo).items() if any(x.startswith("_compare_context.py::compare_context:") for x in w)}, "e.g. a copied compare-only flag stays False while a list is aligned, so nested snapshots are committed to the elements they are merely tried against", strict_rebinders=("_compare_context.py::compare_context",))
 
 
@@ -407,3 +411,188 @@ def align_complete(repo: Repo, rep):
         else:
             rep.violation("R-ALIGN-COMPLETE", f, r.ast, f"align() has a path that returns `{short(v, 50)}` without aligning the window with nw_align: unchanged elements inside the changed region are deleted and re-inserted, losing their hand-written text", construct="bypass-nw")
     rep.floor("R-ALIGN-COMPLETE", "returns of align()", n, 2)
+
+
+def cursor_sync(repo: Repo, rep):
+    rep.rule(
+        "R-CURSOR-SYNC",
+        "in SequenceAdapter.assign the counter that keys the pending insertions (`to_insert[<pos>]`, later the position of ListInsert) counts the consumed "
+        "old elements: inside the loop over the edit script every path that takes an element from the old iterator (`next(<old>)`) also increments the "
+        "counter before the next iteration, and no path increments it without consuming one.  A branch that consumes without counting records every "
+        "later insertion one slot too far left (`[a, X, b]` + insert after b -> inserted before b)",
+    )
+    from ..cfg import must_reach
+
+    f = repo.func("_adapter/sequence_adapter.py::SequenceAdapter.assign")
+    cfg = cfg_of(f)
+    # the counter: a Name used as subscript key of a container that later feeds a ListInsert / insert helper, and incremented in a loop
+    incs = [n for n in cfg.stmts(ast.AugAssign) if isinstance(n.ast.target, ast.Name) and isinstance(n.ast.op, ast.Add)]
+    keyed = {x.slice.id for x in body_nodes(f.node) if isinstance(x, ast.Subscript) and isinstance(x.slice, ast.Name)}
+    counters = {n.ast.target.id for n in incs} & keyed
+    if not counters:
+        # position taken from enumerate / computed otherwise: nothing to keep in step
+        rep.ok("R-CURSOR-SYNC", f, f.node, "no hand-maintained insertion cursor")
+        return
+    pos = sorted(counters)[0]
+    incs = [n for n in incs if n.ast.target.id == pos]
+    # the old iterator: argument of next() whose definition mentions the old value / old node
+    olds = set()
+    for n in cfg.live:
+        for c in node_calls(n):
+            if isinstance(c.func, ast.Name) and c.func.id == "next" and c.args and isinstance(c.args[0], ast.Name):
+                nm = c.args[0].id
+                for d in defs_of(cfg, nm):
+                    v = def_value(d, nm)
+                    if v is not None and "old" in norm(v):
+                        olds.add(nm)
+    takes = [n for n in cfg.live if any(isinstance(c.func, ast.Name) and c.func.id == "next" and c.args and isinstance(c.args[0], ast.Name) and c.args[0].id in olds for c in node_calls(n))]
+    rep.floor("R-CURSOR-SYNC", "sites consuming an old element", len(takes), 2)
+    loops = [n for n in cfg.live if n.kind == "for" and any(t in reach(cfg, [b for b, l in n.succ if l == "iter"], blocked_nodes=[n]) for t in takes)]
+    if not loops:
+        rep.undecided("R-CURSOR-SYNC", "loop over the edit script not found")
+        return
+    head = loops[0]
+    for t in takes:
+        if must_reach(cfg, t, incs, [head], skip_labels=("exc",)):
+            rep.ok("R-CURSOR-SYNC", f, t.ast, f"consuming an old element is followed by `{pos} += 1` on every path of the iteration")
+        else:
+            rep.violation(
+                "R-CURSOR-SYNC",
+                f,
+                t.ast,
+                f"a path consumes an old element (`{short(t.ast, 50)}`) and starts the next iteration without `{pos} += 1`: insertions to the right of it are keyed one slot too far left and written in front of the wrong element",
+                construct=f"take-without-count:{short(t.ast, 40)}",
+            )
+    for i in incs:
+        r = reach(cfg, [b for b, l in head.succ if l == "iter"], blocked_nodes=takes + [head])
+        if i in r:
+            rep.violation("R-CURSOR-SYNC", f, i.ast, f"`{pos} += 1` is reachable in an iteration that consumed no old element: later insertions are keyed too far right", construct="count-without-take")
+        else:
+            rep.ok("R-CURSOR-SYNC", f, i.ast, "increment only after consuming an old element")
+
+
+STRUCTURAL_ASSIGNS = ("_adapter/sequence_adapter.py::SequenceAdapter.assign", "_adapter/dict_adapter.py::DictAdapter.assign", "_adapter/generic_call_adapter.py::GenericCallAdapter.assign")
+
+
+def pair_recurse(repo: Repo, rep):
+    rep.rule(
+        "R-PAIR-RECURSE",
+        "in the structural adapters (sequence, dict, call) the whole-value replacement `value_assign` is only the fall-back for the container as a whole, "
+        "taken before any element is paired: no call of value_assign sits inside a loop of assign(), and every adapter recurses for paired elements through "
+        "`get_adapter(old_element, new_element).assign(...)` inside a loop.  Replacing a paired element wholesale regenerates a partly changed nested "
+        "container and drops the hand-written text of its unchanged parts",
+    )
+    for key in STRUCTURAL_ASSIGNS:
+        f = repo.func(key)
+        rec = 0
+        for c in [x for x in body_nodes(f.node) if isinstance(x, ast.Call) and isinstance(x.func, ast.Attribute)]:
+            in_loop = any(isinstance(a, (ast.For, ast.While, ast.ListComp, ast.GeneratorExp, ast.DictComp)) for a in ancestors(c) if a is not f.node)
+            if c.func.attr == "value_assign" and in_loop:
+                rep.violation(
+                    "R-PAIR-RECURSE",
+                    f,
+                    c,
+                    f"{f.qualname} replaces a paired element as a whole (`{short(c, 60)}` inside the element loop) instead of recursing with get_adapter(...).assign(): "
+                    "a partly changed nested list/dict/call is regenerated and its unchanged hand-written parts are lost",
+                    construct=f"{f.qualname}:value_assign-in-loop",
+                )
+            if c.func.attr == "assign" and isinstance(c.func.value, ast.Call) and isinstance(c.func.value.func, ast.Attribute) and c.func.value.func.attr == "get_adapter" and in_loop:
+                rec += 1
+                rep.ok("R-PAIR-RECURSE", f, c, "paired elements recurse through get_adapter(...).assign()")
+        if rec == 0:
+            rep.violation("R-PAIR-RECURSE", f, f.node, f"{f.qualname} never recurses into paired elements with get_adapter(...).assign()", construct=f"{f.qualname}:no-recursion")
+
+
+def _spelling_reads(fn_node) -> list:
+    """reads of an identifier's *text*: <x>.id / <x>.attr of an ast node, __name__/__qualname__, ast.unparse/dump/get_source_segment"""
+    out = []
+    for x in ast.walk(fn_node):
+        if isinstance(x, ast.Attribute) and x.attr in ("__name__", "__qualname__"):
+            out.append(x)
+        if isinstance(x, ast.Attribute) and x.attr in ("id", "attr") and isinstance(x.ctx, ast.Load):
+            out.append(x)
+        if isinstance(x, ast.Call) and norm(x.func) in ("ast.unparse", "ast.dump", "ast.get_source_segment"):
+            out.append(x)
+    return out
+
+
+def callee_by_value(repo: Repo, rep):
+    rep.rule(
+        "R-CALLEE-BY-VALUE",
+        "GenericCallAdapter.assign decides whether the call in the source constructs the value's type from the *evaluated* callee "
+        "(`context.eval(old_node.func)` + check_type), never from how the callee is spelled: no condition of assign() - directly or through a helper that "
+        "receives `<node>.func` - reads `.id` / `.attr` / `__name__` / an unparse of the callee.  An import alias (`from m import Point as P`), an assigned "
+        "alias or a qualified name would otherwise be taken for a factory call and the whole call regenerated on every fix",
+    )
+    f = repo.func("_adapter/generic_call_adapter.py::GenericCallAdapter.assign")
+    cfg = cfg_of(f)
+    node_param = f.params[2] if len(f.params) > 2 else "old_node"
+    n = 0
+    bad = False
+    for c in cfg.conds():
+        e = c.ast
+        mentions_func = any(isinstance(x, ast.Attribute) and x.attr == "func" and norm(x.value) == node_param for x in ast.walk(e))
+        if not mentions_func:
+            continue
+        n += 1
+        hits = [x for x in _spelling_reads(e) if not (isinstance(x, ast.Attribute) and x.attr in ("id", "attr") and False)]
+        direct = [x for x in hits if isinstance(x, ast.Attribute) and x.attr in ("id", "attr", "__name__", "__qualname__")]
+        via = []
+        for call in [x for x in ast.walk(e) if isinstance(x, ast.Call)]:
+            if any(isinstance(a, ast.Attribute) and a.attr == "func" and norm(a.value) == node_param for a in call.args):
+                tgt = None
+                if isinstance(call.func, ast.Attribute) and f.cls is not None:
+                    tgt = repo.lookup_method(f.cls, call.func.attr)
+                elif isinstance(call.func, ast.Name):
+                    r = repo.resolve_name(f.module, call.func.id)
+                    tgt = r[1] if r and r[0] == "func" else None
+                if tgt is not None and _spelling_reads(tgt.node):
+                    via.append((call, tgt))
+        if direct or via or [x for x in hits if isinstance(x, ast.Call)]:
+            bad = True
+            rep.violation(
+                "R-CALLEE-BY-VALUE",
+                f,
+                e,
+                f"`{short(e, 70)}` decides on the spelling of the called name" + (f" (through {via[0][1].qualname})" if via else "") + ": a class used through an alias "
+                "(`from models import Point as P`, `Pt = Point`, `models.Point`) is treated as a factory call, any fix regenerates the whole call and drops the unchanged arguments' text",
+                construct="callee-spelling",
+            )
+    evals = [c for c in body_nodes(f.node) if isinstance(c, ast.Call) and isinstance(c.func, ast.Attribute) and c.func.attr == "eval" and c.args and "func" in norm(c.args[0])]
+    if evals and not bad:
+        rep.ok("R-CALLEE-BY-VALUE", f, evals[0], "the callee is evaluated (context.eval(node.func)) and tested with check_type")
+    elif not evals:
+        rep.violation("R-CALLEE-BY-VALUE", f, f.node, "GenericCallAdapter.assign no longer evaluates the callee of the source call", construct="no-eval")
+
+
+def align_window(repo: Repo, rep):
+    rep.rule(
+        "R-ALIGN-WINDOW",
+        "align(): the scan for the equal suffix is restricted to what the equal prefix left over - its iterables (or a dominating bound) mention the prefix "
+        "counter - so prefix and suffix cannot overlap; otherwise `[1, 1]` vs `[1, 1, 1]` yields four `m` for sequences of length 2 and 3 and "
+        "SequenceAdapter.assign runs out of elements (RuntimeError inside ==)",
+    )
+    f = repo.func("_align.py::align")
+    loops = [x for x in f.node.body if isinstance(x, ast.For)]
+    counters = []
+    for lp in loops:
+        inc = [a.target.id for a in ast.walk(lp) if isinstance(a, ast.AugAssign) and isinstance(a.target, ast.Name) and isinstance(a.op, ast.Add)]
+        counters.append(inc[0] if inc else None)
+    if len(loops) < 2 or counters[0] is None:
+        rep.ok("R-ALIGN-WINDOW", f, f.node, "no separate prefix/suffix scans")
+        return
+    prefix = counters[0]
+    second = loops[1]
+    names = {x.id for x in ast.walk(second.iter) if isinstance(x, ast.Name)}
+    conds = {x.id for t in ast.walk(second) if isinstance(t, (ast.If, ast.While)) for x in ast.walk(t.test) if isinstance(x, ast.Name)}
+    if prefix in names or prefix in conds:
+        rep.ok("R-ALIGN-WINDOW", f, second, f"the suffix scan is bounded by the prefix counter `{prefix}`")
+    else:
+        rep.violation(
+            "R-ALIGN-WINDOW",
+            f,
+            second,
+            f"the suffix scan `{short(second.iter, 60)}` does not exclude the first `{prefix}` elements already matched as prefix: with repeated elements prefix and suffix overlap, "
+            "align() returns more `m` than the shorter sequence has elements and SequenceAdapter.assign raises inside the comparison",
+            construct="suffix-overlaps-prefix",
+        )
